@@ -174,7 +174,8 @@ def gen_doc(rng, *, kern_only=False, max_spines=4, splits=True, core=False, comm
         t = '=' + rng.choice(['', str(number)])
         if hidden_barlines and rng.random() < 0.3:
             t += '-'
-        t += rng.choice(['', '', '', '||', ':|!|:', '|!', '!|:', ':|!'])
+        # every barline type of the grammar (the rarer ones - |!: |: :||: :!: :!!: - less often)
+        t += rng.choice(['', '', '', '', '', '', '||', '||', ':|!|:', ':|!|:', '|!', '|!', '!|:', '!|:', ':|!', ':|!', '|!:', '|:', ':||:', ':!:', ':!!:'])
         if rng.random() < 0.1:
             t += ';'
         number += 1
@@ -378,6 +379,19 @@ def addr(node):
     if node is None:
         return '-'
     return None
+
+
+def load_text_via_file(kp, text):
+    """kp.load of a fresh file holding exactly the bytes of the text (the file line reader instead of str.splitlines)"""
+    import os, shutil, tempfile
+    tmp = tempfile.mkdtemp(prefix='kvdoc_')
+    try:
+        path = os.path.join(tmp, 'score.krn')
+        with open(path, 'w', encoding='utf-8', newline='') as f:
+            f.write(text)
+        return kp.load(path)
+    finally:
+        shutil.rmtree(tmp, ignore_errors=True)
 
 
 def impl_show_doc(kp, doc, errors):
